@@ -3,6 +3,7 @@ CONSTANTS
 INIT TInit
 NEXT TNext
 CHECK_DEADLOCK FALSE
+PROPERTY Prop_Frame
 INVARIANT Inv_CacheCoherent
 INVARIANT Inv_PdfNormalised
 INVARIANT Inv_PdfIsNormal
